@@ -363,6 +363,81 @@ def v7(ctx, rid):
         raise core.AnchorLost('data read of the sequential scan: %d' % n)
 
 
+def v8(ctx, rid):
+    """"quarantined at start-up when data validation is enabled": the flag that switches the data-checksum audit of the
+    regeneration scan on is the configured flag and nothing else - every call that hands a validation flag to the scan
+    (raw_records / RawRecords::start) passes a value whose only leaf is the field validate_data_during_index_regen"""
+    prog = ctx.prog
+    n = 0
+    for f in prog.fns.values():
+        for c in f.calls:
+            if c.bb not in f.reachable() or c.name == 'poll':
+                continue
+            tg = [t for t in prog.resolve(c) if t in prog.fns and (t.endswith('Blob::<K>::raw_records') or t.endswith('RawRecords::start'))]
+            if not tg:
+                continue
+            bools = [a for a in c.args if op_local(a) is not None and f.locals[op_local(a)]['s'] == 'bool' or (core.op_const(a) is not None and core.op_const(a).get('ty') == 'bool')]
+            for a in bools:
+                n += 1
+                key = 'validation-flag-is-config|%s|%s' % (prog.fns[f.id].root, c.name)
+                lv = core.scalar_leaves(prog, f, a, depth=0)
+                fields = {v for k, v in lv if k == 'field'}
+                args_ = {v for k, v in lv if k in ('arg', 'upvar')}
+                other = {(k, v) for k, v in lv if k not in ('field', 'arg', 'upvar')}
+                if (fields == {'validate_data_during_index_regen'} and not other and not args_) or (not fields and not other and args_):
+                    ctx.ok(rid, key, c.where(), 'the flag is the configured validate_data_during_index_regen (or a parameter carrying it)')
+                else:
+                    ctx.bad(rid, key, c.where(), 'the data-validation flag handed to the blob scan depends on %s besides the configured flag: with validation enabled a blob whose data bytes were altered can be re-indexed without the audit and is not quarantined' % sorted(str(x) for x in (other | {('field', x) for x in fields - {'validate_data_during_index_regen'}})))
+    if n < 2:
+        raise core.AnchorLost('validation flag hand-overs to the scan: %d' % n)
+
+
+def option_reaches_config(ctx, rid, field, builder_method):
+    """a configuration option keeps the value the user gave it: (a) the builder method hands its argument to the Config setter on
+    every path, (b) outside `Default` impls every construction / store of a config struct's `field` takes it from the setter's
+    parameter or from the same field of another config value - never from a constant or a Default::default()"""
+    prog = ctx.prog
+    n = 0
+    for f in prog.fns.values():
+        if f.id != prog.fns[f.id].root or not f.id.endswith('Builder::' + builder_method):
+            continue
+        n += 1
+        key = 'builder-forwards|%s' % f.id
+        sets = [c for c in f.calls if c.bb in f.reachable() and c.name == builder_method and 'Config' in c.path]
+        rets = [i for i in f.reachable() if f.blocks[i]['t']['k'] == 'return']
+        if not sets:
+            ctx.bad(rid, key, f.where(), 'the builder method does not call the Config setter')
+        elif any(r in f.reach_from([0], avoid_exit=[c.bb for c in sets]) for r in rets):
+            ctx.bad(rid, key, f.where(), 'the builder can return without handing the value to the configuration (a value is rejected or skipped): the storage then runs with the default instead of the configured value')
+        else:
+            ctx.ok(rid, key, sets[0].where(), 'argument forwarded to the Config setter on every path')
+    for adt in [a for a in prog.adts if a.endswith('::Config') or a.endswith('::BlobConfig')]:
+        for (f, bb, o, how) in core.field_sources(prog, adt, field):
+            root = prog.fns[prog.fns[f.id].root]
+            n += 1
+            key = 'field-keeps-user-value|%s|%s' % (adt.split('::')[-1], root.id)
+            if (root.trait_item or '').startswith('std::default::Default::'):
+                ctx.ok(rid, key, f.where(bb), 'Default impl', nontrivial=False)
+                continue
+            ogs = core.origins(f, o, stop_fields=True) if o is not None else []
+            good = [x for x in ogs if x.kind == 'arg' or (x.kind == 'field' and x.data[1] == field) or x.kind == 'upvar']
+            base = core.origins(f, o) if o is not None else []
+            fresh = [x for x in base if x.kind == 'call' and x.data.name in ('default', 'new') and x.data.crate != 'pearl' or (x.kind == 'call' and x.data.name == 'default')]
+            if fresh:
+                good = []
+                ogs = fresh
+            if ogs and len(good) == len(ogs):
+                ctx.ok(rid, key, f.where(bb), 'value comes from the parameter / the same field of another config value')
+            else:
+                ctx.bad(rid, key, f.where(bb), 'a config value is built / overwritten in `%s` with `%s` taken from %s: a previously configured value is silently replaced' % (root.id.split('::')[-1], field, [repr(x)[:60] for x in ogs if x not in good][:2] or 'nothing'))
+    if n < 3:
+        raise core.AnchorLost('configuration plumbing of %s: %d' % (field, n))
+
+
+def v9(ctx, rid):
+    option_reaches_config(ctx, rid, 'validate_data_during_index_regen', 'set_validate_data_during_index_regen')
+
+
 RULES = [
     Rule('C05.V1', 'no record data leaves a reading function without an ok data-checksum audit', v1, 4),
     Rule('C05.V2', 'a header deserialised from file bytes is accepted only after magic + header-CRC validation', v2, 3),
@@ -370,5 +445,7 @@ RULES = [
     Rule('C05.V4', 'the checksum audits return Ok only on the equal edge of computed vs stored CRC', v4, 2),
     Rule('C05.V6', 'a two-buffer record is written head first: the data buffer follows the successful write of the head', v6, 1),
     Rule('C05.V7', 'the sequential scan reads record data only after advancing the cursor by header size and meta size', v7, 1),
+    Rule('C05.V8', 'the data-validation flag handed to the regeneration scan is the configured flag and nothing else', v8, 2),
+    Rule('C05.V9', 'the configured data-validation flag reaches every blob config unchanged (builder forwards it, no constructor resets it)', v9, 3),
     Rule('C05.V5', 'the header CRC written at reservation time is computed after the offset was patched', v5, 1),
 ]
